@@ -252,11 +252,13 @@ def flag_provenance(ctx, rule, flag, family=('assert_limits', 'engine_on'), floo
         own_param = [n_ for n_, nm in mine.items() if nm == flag]
         tname = b.fid.split('::')[0].strip('<>').split(' as ')[0]
         own_field = mine.get(1) == 'self' and any((not td.test) and td.kind == 'struct' and td.field(flag) is not None for td in prog.types.get(tname, []))
+        passed = []
         for c in an.calls:
             for x in (c.targets or []):
                 if x not in has or len(c.argvals) < has[x]:
                     continue
                 v = c.argvals[has[x] - 1]
+                passed.append((v, c, x))
                 mentioned = set()
                 for y in walk(v):
                     if y[0] == 'pre':
@@ -276,6 +278,16 @@ def flag_provenance(ctx, rule, flag, family=('assert_limits', 'engine_on'), floo
                           'the value passed for `%s` is %s%s' % (flag, show(v, an.names)[:120],
                                                                (' — it derives from `%s`' % '`, `'.join(sorted(other))) if other else ' — the caller\'s own flag is not used'),
                           ctx.where(b, c.span))
+        # (c) one step, one command: every callee of this function receives the SAME value for the flag (reading the command at
+        # two different indices / moments hands stale state to one of them)
+        nonconst = [(v, c, x) for v, c, x in passed if any(y[0] in ('pre', 'loopvar') for y in walk(v))]
+        distinct = []
+        for v, c, x in nonconst:
+            if all(v != d[0] for d in distinct):
+                distinct.append((v, c, x))
+        if len(nonconst) >= 2:
+            ctx.check(len(distinct) == 1, rule, '%s|one value' % b.fid, 'all %d callees receive the same `%s`' % (len(nonconst), flag),
+                      'callees receive different values of `%s`: %s' % (flag, [(d[2].split('::')[-1], show(d[0], an.names)[:80]) for d in distinct]), ctx.where(b))
     ctx.floor('call sites handing `%s` on' % flag, n, floor)
 
 
